@@ -66,6 +66,13 @@ CHECKS["C20"] = dict(text="TLC enumerates the discrete shape space of the calls 
     "partition/order, positivity, rescaling invariance, monotonicity in alpha, LCPR(one component)=LPR, CPR(one environment)=LCPR and rank_diff (exact "
     "integer rank for alpha=0) are checked on every case.", ref="6/C20",
     tech="TLC-enumerated call shapes replayed in the code; TLC validates closed form with a verified inverse witness and the scaling laws as output relations")
+CHECKS["C18"] = dict(text="For recorded fits on integer data the specification checks in fixed point: orthogonality of the padded weight matrix; partial "
+    "isometry and range containment in projector mode (thin-SVD witness of the linear coefficients verified first); |predict(x)| <= |x|; recovery of "
+    "rational orthogonal maps (signed permutations x Pythagorean Givens rotations) for every relation of feature and target counts; and Procrustes "
+    "optimality against competitors enumerated by TLC inside each case - all signed permutation matrices of the padded size (up to 384) and rotations of "
+    "the fitted map by 8 rational angles in every coordinate plane (reduced-space signed permutations in projector mode). No design-level state space: "
+    "TLC acts as evaluator of the specification and enumerator of competitors.", ref="6/C18",
+    tech="TLC evaluates fixed-point defining equations on recorded fits and enumerates competitor orthogonal maps")
 NA = {}
 def main():
     props = [json.loads(l)["id"] for l in open(os.path.join(HERE, "properties.jsonl"))]
